@@ -45,7 +45,7 @@ func setupStorage(dbdir string, w window) {
 	if err := st.Set("base", []byte(w.base)); err != nil {
 		hx.Fatal("storage set: %v", err)
 	}
-	if err := st.Set("fs_root", []byte("root")); err != nil {
+	if err := st.Set("fs_root", []byte(rootName)); err != nil {
 		hx.Fatal("storage set: %v", err)
 	}
 }
@@ -464,6 +464,43 @@ var pathVerbs = []string{"MKD", "RMD", "DELE", "RNFR", "RNTO", "STOR", "RETR", "
 var absVirtual string
 var hostSpelled []string
 
+// names beside the root that extend the root's name, after 1..3 ".." components (siblingPaths)
+var siblingSpelled = siblingPaths()
+
+// For every entry beside the root whose name extends the root's name (and for the root's own
+// name), after k = 1..3 ".." components, absolute and relative: every command of the
+// quantifier aimed at it, in three short sequences - reading (RETR LIST NLST MDTM SIZE),
+// moving the working directory (CWD PWD CDUP), changing (MKD STOR APPE DELE RMD RNFR RNTO).
+// What is judged is what the service does: the bytes it sends, the directory it reports, and
+// the snapshot of the sentinel tree afterwards.
+func siblingCorpus(cwdOK bool) [][]Op {
+	P := func(v, p string) Op { return Op{V: v, P: hx.B(p)} }
+	S := func(p, d string) Op { return Op{V: "STOR", P: hx.B(p), Data: hx.B(d)} }
+	rest := Op{V: "REST", Z: -100}
+	var out [][]Op
+	for _, name := range siblingTargets() {
+		for k := 1; k <= 3; k++ {
+			for _, abs := range []bool{true, false} {
+				p := strings.Repeat("../", k) + name
+				if abs {
+					p = "/" + p
+				}
+				file := p + "/secret.txt"
+				if name == rootName+"-" {
+					file = p // this sibling is a file itself
+				}
+				out = append(out, []Op{rest, P("RETR", file), P("LIST", p), P("NLST", p), P("MDTM", p+"/b"), P("SIZE", file), P("SIZE", p+"/b")})
+				if cwdOK {
+					out = append(out, []Op{P("CWD", p), {V: "PWD"}, P("NLST", ""), {V: "CDUP"}, {V: "PWD"}, P("CWD", p+"/a"), {V: "PWD"}})
+				}
+				out = append(out, []Op{P("MKD", p+"/made"), S(p+"/put.txt", "put"), {V: "APPE"}, S(p+"/b", "-appended"), P("DELE", p+"/a/b"), P("RMD", p+"/EMPTY-d"),
+					P("RNFR", p+"/b"), P("RNTO", "/taken"), P("RNFR", "/a/b"), P("RNTO", p+"/stolen"), P("DELE", p), P("RMD", p)})
+			}
+		}
+	}
+	return out
+}
+
 // ls-style switches in front of (or instead of) the LIST/NLST argument
 var lsSwitches = []string{"-a", "-l", "-la", "-al", "-R", "-aR", "-1", "-a /", "-la /", "-al ..", "-a .", "-la a", "-a a/..", "-a /a/b/../..", "-l b",
 	"-a ../..", "-la /..", "-a -l", "-l -a /", "-R /", "-a a/a/..", "--", "-"}
@@ -471,7 +508,9 @@ var lsSwitches = []string{"-a", "-l", "-la", "-al", "-R", "-aR", "-1", "-a /", "
 func genFtpPath(r *hx.Rand, all []string) string {
 	for {
 		var p string
-		switch r.Intn(13) {
+		switch r.Intn(14) {
+		case 13:
+			p = siblingSpelled[r.Intn(len(siblingSpelled))]
 		case 11:
 			p = hostSpelled[r.Intn(len(hostSpelled))]
 		case 12:
@@ -794,6 +833,11 @@ func runFtpPart(o hx.Opts, r *hx.Rand, w window, out, header string, all []strin
 		seqs = [][]Op{replay.Ops}
 		lays = []int{replay.Layout % nLayouts}
 	} else {
+		// siblings whose names extend the root's name (layout 0 holds them)
+		for _, ops := range siblingCorpus(cwdOK) {
+			seqs = append(seqs, ops)
+			lays = append(lays, 0)
+		}
 		// the client empties the root, then removes / renames / recreates the root itself,
 		// spelled in every way, under every layout of its surroundings
 		for l := 0; l < nLayouts; l++ {
